@@ -38,6 +38,7 @@ ASSUMPTIONS = [
 ]
 REQUIRED_COUNTERS = ["enter._update_zo_file", "enter._add_zid_to_line", "enter.create_database", "enter.reindex_database", "contract_evals._update_zo_file"]
 MIN_JUDGED = {"quick": 40, "thorough": 600}
+FINDING_CRLF = "C05-crlf-pages-are-rewritten-with-lf"
 ZID_RE = re.compile(r"^(\d{6})#[0-9A-HJ-NPRT-Za-fhkmnor-xz]{2,3}$")
 
 _STATE: dict = {"contract_violations": []}
@@ -84,7 +85,8 @@ def plan(tier: str, seed: int) -> list[dict]:
 
 def gen_case(seed: int, idx: int) -> zd.ZDir:
     rng = rng_for(ID, seed, idx)
-    opts = pg.GenOpts(max_items=3, max_blocks=2, allow_mod_without_zid=False, irregular_gap=True, p_zid=rng.choice([0.0, 0.3, 0.5, 0.8, 1.0]), p_ldate=0.4)
+    opts = pg.GenOpts(max_items=3, max_blocks=2, allow_mod_without_zid=False, irregular_gap=True, p_zid=rng.choice([0.0, 0.3, 0.5, 0.8, 1.0]), p_ldate=0.4,
+                      p_foreign=0.08, foreign_pool=pg.FOREIGN_WORDS + pg.EXOTIC_SEPARATOR_WORDS)
     return zd.gen_zdir(rng, opts)
 
 
@@ -141,6 +143,11 @@ def describe_diff(only_a, only_b, la: str, lb: str) -> str:
 def check_line_model(acc: Acc, rel: str, old: bytes, new: bytes, exp, case) -> set:
     """Returns the set of new ZIDs found; reports deviations from the line-diff model."""
     new_zids = set()
+    if b"\r\n" in old and new != old and b"\r" not in new:
+        # CRLF page rewritten through text-mode IO: every line end changes (known finding); the rest of
+        # the model is judged against the page with normalised line ends
+        acc.violation(f"{rel}: CRLF line ends were converted to LF when the page was rewritten", case, cls="file: CRLF line ends converted to LF by the write-back", finding=FINDING_CRLF)
+        old = old.replace(b"\r\n", b"\n")
     ol, nl = old.decode().split("\n"), new.decode().split("\n")
     if len(ol) != len(nl):
         acc.violation(f"{rel}: line count changed {len(ol)} -> {len(nl)}", case, cls="file: line count changed")
@@ -186,6 +193,13 @@ def run_case(acc: Acc, seed: int, idx: int) -> None:
     root = harness.fresh_dir("c05") / "org"
     root.mkdir()
     z.write(root)
+    crlf = idx % 8 == 5
+    if crlf:
+        # the same directory with DOS line ends (the grammar's NL admits '\r\n')
+        for rel in z.pages:
+            f = root / rel
+            f.write_bytes(f.read_bytes().replace(b"\n", b"\r\n"))
+        acc.count("crlf_directories")
     expected = z.expected()
     # generator self-check: every page must be accepted by the real parser
     for rel in z.pages:
@@ -233,6 +247,14 @@ def run_case(acc: Acc, seed: int, idx: int) -> None:
         if len(zs) != len(set(zs)):
             acc.violation("duplicate ZID rows in the index", case, cls="duplicate ZID in index")
         oa, ob = multiset_diff(recs_files, dump.notes, db.NOTE_KEYS)
+        if crlf and (oa or ob):
+            # the index was filled BEFORE the write-back turned the page's CRLF into LF: bodies of multi-line
+            # notes keep their '\r' in the index only (same known finding); judged modulo '\r'
+            strip = lambda rs: [dict(r_, body=r_["body"].replace("\r", "")) for r_ in rs]
+            oa2, ob2 = multiset_diff(strip(recs_files), strip(dump.notes), db.NOTE_KEYS)
+            if not (oa2 or ob2):
+                acc.violation("files vs SQL rows differ only by the CR characters the rewritten page lost", case, cls="recompiled files != indexed rows (CR of a rewritten CRLF page)", finding=FINDING_CRLF)
+            oa, ob = oa2, ob2
         if oa or ob:
             acc.violation("files vs SQL rows: " + describe_diff(oa, ob, "files", "index"), case, cls="recompiled files != indexed rows (" + _fields(oa, ob) + ")")
         keys_c = tuple(k for k in db.NOTE_KEYS if k not in ("section", "block_ord"))
@@ -261,6 +283,12 @@ def run_case(acc: Acc, seed: int, idx: int) -> None:
                 break
             d2 = db.dump_index(root)
             oa, ob = multiset_diff(d2.notes, dump.notes, db.NOTE_KEYS)
+            if crlf and (oa or ob):
+                strip = lambda rs: [dict(r_, body=r_["body"].replace("\r", "")) for r_ in rs]
+                oa2, ob2 = multiset_diff(strip(d2.notes), strip(dump.notes), db.NOTE_KEYS)
+                if not (oa2 or ob2):
+                    acc.violation(f"`{' '.join(cmd)}` after create changed the index only by dropping the CR characters of a rewritten CRLF page", case, cls="later run drops the CR of a rewritten CRLF page from the index", finding=FINDING_CRLF)
+                oa, ob = oa2, ob2
             if oa or ob or d2.problems:
                 acc.violation(f"`{' '.join(cmd)}` after create changed the index: " + describe_diff(oa, ob, "after", "before") + str(d2.problems[:2]), case, cls=f"second {' '.join(cmd[:2])}{' <paths>' if len(cmd) > 2 else ''} changes the index")
                 break
